@@ -5,7 +5,15 @@ EXTENDS TraceIO, Tolerances
 VARIABLES tid, l
 Has(e, f) == f \in DOMAIN e
 AbsTol(e) == IF e.layered = TRUE THEN Tol_cs_abs_layered ELSE Tol_cs_abs_nonneg
-Clauses(e) ==
+\* a true cluster (>= 2 spheres, multi-sphere solver with its default truncation 1e-5)
+ClusterClauses(e) ==
+  [ ext_is_sum      |-> e.mb_ext_is_sum <= Tol_cs_ext_is_sum,
+    abs_nonneg      |-> e.mb_abs_neg_part <= Tol_cs_cluster,
+    abs_zero_real   |-> (e.index_real = TRUE) => e.mb_abs_over_ext <= Tol_cs_cluster,
+    sca_pos         |-> e.sca_pos = TRUE,
+    g_range         |-> e.g_in_range = TRUE,
+    optical_theorem |-> e.mb_optical_theorem <= Tol_cs_cluster ]
+SphereClauses(e) ==
   [ ext_is_sum      |-> e.mb_ext_is_sum <= Tol_cs_ext_is_sum,
     abs_nonneg      |-> e.mb_abs_neg_part <= AbsTol(e),
     abs_zero_real   |-> (e.index_real = TRUE) => e.mb_abs_over_ext <= AbsTol(e),
@@ -17,6 +25,7 @@ Clauses(e) ==
     rayleigh        |-> e.mb_rayleigh <= Tol_cs_rayleigh,
     textbook        |-> e.mb_textbook <= (IF e.bigx = TRUE THEN Tol_cs_optical_big ELSE Tol_cs_textbook),
     multisphere     |-> e.mb_multisphere <= Tol_cs_multisphere ]
+Clauses(e) == IF e.event = "ClusterCrossSections" THEN ClusterClauses(e) ELSE SphereClauses(e)
 StepOK(e) == \A k \in DOMAIN Clauses(e) : Clauses(e)[k]
 Init == /\ tid \in Tids /\ l = 1 /\ TLCSet(tid, 1)
 Step == /\ l <= Len(Traces[tid]) /\ StepOK(Traces[tid][l])
